@@ -43,7 +43,7 @@ unsigned int getActiveThreads() noexcept { return runtime::activeThreads; }
 } // namespace galois
 
 namespace vf16 {
-constexpr unsigned WLCAP = 12;
+constexpr unsigned WLCAP = 8;
 static unsigned T        = 1;
 static void (*post_on_each)(void* fn) = nullptr; // observation hook: runs after the last worker of on_each
 static unsigned fe_max_iters          = WLCAP;     // for_each stand-in: bound on operator invocations
@@ -73,8 +73,10 @@ struct Ctx {
   bool* brk;
   template <typename... A>
   void push(A&&... a) {
-    VF_CHECKM(*tail < WLCAP, "harness work-list capacity");
-    wl[(*tail)++] = V(std::forward<A>(a)...);
+    // every item costs one operator call and at most WLCAP (>= fe_max_iters) calls are considered: a run that
+    // creates more items is outside the bound anyway
+    vf_assume(*tail < WLCAP);
+    new (&wl[(*tail)++]) V(std::forward<A>(a)...);
   }
   void breakLoop() { *brk = true; }
 };
@@ -107,12 +109,12 @@ template <typename V>
 struct It {
   typedef std::random_access_iterator_tag iterator_category;
   typedef V value_type;
-  typedef long difference_type;
+  typedef int difference_type;
   typedef V* pointer;
   typedef V& reference;
-  long i;
+  int i;
   It() : i(0) {}
-  explicit It(long k) : i(k) {}
+  explicit It(long k) : i((int)k) {}
   V& operator*() const {
     VF_CHECKM(i >= 0 && i < Store<V>::n, "iterator dereferenced outside [first,last)");
     return Store<V>::v[i];
@@ -128,7 +130,7 @@ struct It {
   friend It operator+(It a, long k) { return It(a.i + k); }
   friend It operator+(long k, It a) { return It(a.i + k); }
   friend It operator-(It a, long k) { return It(a.i - k); }
-  friend long operator-(It a, It b) { return a.i - b.i; }
+  friend int operator-(It a, It b) { return a.i - b.i; }
   friend bool operator==(It a, It b) { return a.i == b.i; }
   friend bool operator!=(It a, It b) { return a.i != b.i; }
   friend bool operator<(It a, It b) { return a.i < b.i; }
@@ -144,6 +146,22 @@ std::false_type invocable_with(...);
 } // namespace vf16
 
 #include "galois/ParallelSTL.h"
+
+// The REAL galois::UserContext (handed to find_if_helper) owns a per-iteration allocator whose source heap lives in
+// Mem.cpp / PagePool.cpp (C09's subject).  No operator of ParallelSTL allocates from it; the out-of-line pieces are
+// supplied here: empty constructor/destructor, and a page pool that must never be asked for a page.
+#include "galois/runtime/PagePool.h"
+namespace galois {
+namespace runtime {
+SystemHeap::SystemHeap() {}
+SystemHeap::~SystemHeap() {}
+void* pagePoolAlloc() {
+  VF_CHECKM(false, "environment: the per-iteration allocator is not expected to be used");
+  abort();
+}
+void pagePoolFree(void*) { VF_CHECKM(false, "environment: the per-iteration allocator is not expected to be used"); }
+} // namespace runtime
+} // namespace galois
 
 namespace galois {
 
@@ -190,12 +208,13 @@ template <typename RangeFunc, typename FunctionTy, typename... Args>
 void for_each(const RangeFunc& rangeMaker, FunctionTy&& fn, const Args&... args) {
   auto range = rangeMaker(std::make_tuple(args...));
   typedef typename std::remove_const<typename decltype(range)::value_type>::type V;
-  V wl[vf16::WLCAP];
+  alignas(V) unsigned char wlbuf[sizeof(V) * vf16::WLCAP]; // raw storage: no constructor loop
+  V* wl         = reinterpret_cast<V*>(wlbuf);
   unsigned head = 0, tail = 0;
   bool brk = false;
   for (auto i = range.begin(); i != range.end(); ++i) {
-    VF_CHECKM(tail < vf16::WLCAP, "harness work-list capacity");
-    wl[tail++] = *i;
+    vf_assume(tail < vf16::WLCAP); // bound of the harness: at most WLCAP items per loop
+    new (&wl[tail++]) V(*i);
   }
   vf16::fe_iters = 0;
   typedef decltype(vf16::invocable_with<typename std::remove_reference<FunctionTy>::type, V, vf16::Ctx<V>>(0)) Light;
